@@ -764,7 +764,13 @@ pub fn main_for<P: Property>(p: P, opts: &Opts) -> i32 {
             );
         }
         for h in handles {
-            total.merge(h.join().unwrap());
+            match h.join() {
+                Ok(stats) => total.merge(stats),
+                Err(_) => {
+                    println!("ERROR property={} a worker thread of the harness panicked outside a case (harness defect, not a violation)", id);
+                    return 2;
+                }
+            }
         }
         let taken = found.lock().unwrap().take();
         if let Some((i, failures)) = taken {
@@ -858,7 +864,13 @@ pub fn main_for<P: Property>(p: P, opts: &Opts) -> i32 {
             );
         }
         for h in handles {
-            total.merge(h.join().unwrap());
+            match h.join() {
+                Ok(stats) => total.merge(stats),
+                Err(_) => {
+                    println!("ERROR property={} a worker thread of the harness panicked outside a case (harness defect, not a violation)", id);
+                    return 2;
+                }
+            }
         }
         let mut found = found.lock().unwrap();
         found.sort_by_key(|x| x.0);
